@@ -5,12 +5,12 @@ go 1.18
 require (
 	github.com/bytedance/sonic v0.0.0
 	github.com/bytedance/sonic/loader v0.5.1
+	github.com/klauspost/cpuid/v2 v2.2.9
 )
 
 require (
 	github.com/bytedance/gopkg v0.1.3 // indirect
 	github.com/cloudwego/base64x v0.1.6 // indirect
-	github.com/klauspost/cpuid/v2 v2.2.9 // indirect
 	github.com/twitchyliquid64/golang-asm v0.15.1 // indirect
 	golang.org/x/arch v0.0.0-20210923205945-b76863e36670 // indirect
 )
